@@ -3,6 +3,9 @@
 //@@ attach: searchlite-ffi/src/lib.rs
 //@@ slice: ffi_search_tail
 //@@ slice: ffi_search_guard
+//@@ slice: ffi_add_json_guard
+//@@ slice: ffi_commit_guard
+//@@ slice: ffi_open_guard
 use super::*;
 
 fn response<const L: usize>() -> (String, [u8; L]) {
@@ -113,10 +116,10 @@ fn c26_search_tail_null_buffer() {
 
 //@ props: C26
 //@ tier: quick
-//@ funcs: searchlite_ffi::searchlite_search (source slice: the statements before `let h = &mut *handle`), searchlite_ffi::searchlite_index_close (real function)
+//@ funcs: searchlite_ffi::searchlite_search, searchlite_add_json, searchlite_commit, searchlite_index_open (source slices: the statements before the first pointer dereference), searchlite_ffi::searchlite_index_close (real function)
 //@ symbolic: which of handle / query is null (the other is a dangling non-null pointer that must not be dereferenced)
 //@ bounds: 3 null patterns
-//@ oracle: a null handle or null query returns 0 before anything is dereferenced; closing a null handle is a no-op
+//@ oracle: search: a null handle or null query returns 0 before anything is dereferenced; add_json / commit: a null handle or json returns a negative status; index_open: a null path returns a null handle; closing a null handle is a no-op
 //@ outside: the real searchlite_search / add_json / commit / index_open cannot be compiled by kani-compiler 0.68 (internal compiler error in intrinsics.rs on code reachable from Index::open / IndexReader::search), so their guards are checked on this slice only
 #[kani::proof]
 #[kani::unwind(4)]
@@ -136,6 +139,14 @@ fn c26_null_arguments_rejected() {
     let g = slice_search_guard(dangling, q.as_ptr() as *const c_char, 10, n, n, 0, o, 4);
     assert!(g == usize::MAX || g == 0, "C26: argument guard returned a length without running the search");
     searchlite_index_close(std::ptr::null_mut());
+    // the other entry points: null arguments give a negative status / a null handle
+    assert!(slice_add_json_guard(std::ptr::null_mut(), q.as_ptr() as *const c_char, 1) < 0, "C26: add_json with a null handle must return a negative status");
+    assert!(slice_add_json_guard(dangling, n, 1) < 0, "C26: add_json with null json must return a negative status");
+    assert!(slice_add_json_guard(dangling, q.as_ptr() as *const c_char, 1) == c_int::MAX, "add_json guard rejected valid arguments");
+    assert!(slice_commit_guard(std::ptr::null_mut()) < 0, "C26: commit with a null handle must return a negative status");
+    assert!(slice_commit_guard(dangling) == c_int::MAX, "commit guard rejected a valid handle");
+    assert!(slice_open_guard(n, kani::any()).is_null(), "C26: index_open with a null path must return a null handle");
+    assert!(!slice_open_guard(q.as_ptr() as *const c_char, kani::any()).is_null(), "open guard rejected a valid path");
   }
   kani::cover!(true, "guards executed");
 }
